@@ -13,7 +13,7 @@ TB_COMMON = [KERNEL, 'axioms: propext, Classical.choice, Quot.sound only (audite
 
 # theorem registry: property -> [(module, [theorem names])]
 THEOREMS = {
-    'C11': [('ChessVerif.Props.C11', ['Chess.Props.C11_slider', 'Chess.Props.C11_leapers', 'Chess.Props.C11_lines', 'Chess.Props.C11_pawn_partial'])],
+    'C11': [('ChessVerif.Props.C11', ['Chess.Props.C11_slider', 'Chess.Props.C11_leapers', 'Chess.Props.C11_lines', 'Chess.Props.C11_pawn'])],
     'C01': [('ChessVerif.Props.C01', ['Chess.Props.C01_leaper_geometry_partial', 'Chess.Props.C01_slider_geometry_partial', 'Chess.Props.C01_castling_paths_partial',
                                      'Chess.Props.C01_king_moves_partial', 'Chess.Props.C01_pins_partial'])],
     'C02': [('ChessVerif.Props.C02', ['Chess.Props.C02_step', 'Chess.Props.C02_replay', 'Chess.Props.C02_castling_clock']),
@@ -23,7 +23,9 @@ THEOREMS = {
     'C04': [('ChessVerif.Props.C04', ['Chess.Props.C04_key_inv', 'Chess.Props.C04_scratch_is_init', 'Chess.Props.C04_same_pos_same_key', 'Chess.Props.C04_pawn_key'])],
     'C05': [('ChessVerif.Props.C05', ['Chess.Props.C05_bestmove', 'Chess.Props.C05_bestmove_generated', 'Chess.Props.C05_pv_legal'])],
     'C06': [('ChessVerif.Props.C06', ['Chess.Props.C06_one_bestmove', 'Chess.Props.C06_stop_not_lost', 'Chess.Props.C06_isready', 'Chess.Props.C06_race_free'])],
-    'C07': [('ChessVerif.Props.C07', ['Chess.Props.C07_repetition_keys', 'Chess.Props.C07_repetition', 'Chess.Props.C07_rule50', 'Chess.Props.C07_draw', 'Chess.Props.C07_mate_stalemate'])],
+    'C07': [('ChessVerif.Props.C07', ['Chess.Props.C07_repetition_keys', 'Chess.Props.C07_repetition', 'Chess.Props.C07_rule50', 'Chess.Props.C07_draw', 'Chess.Props.C07_mate_stalemate',
+                                     'Chess.Props.C07_check', 'Chess.Props.C07_attacked', 'Chess.Props.C07_check_after_move']),
+            ('ChessVerif.Lemmas.OKDec', ['Chess.check_eq_of_hypotheses'])],
     'C08': [('ChessVerif.Props.C08', ['Chess.Props.C08_distance', 'Chess.Props.C08_printed', 'Chess.Props.C08_ranges_disjoint'])],
     'C09': [('ChessVerif.Props.C09', ['Chess.Props.C09_depths', 'Chess.Props.C09_searchmoves', 'Chess.Props.C09_depth_index'])],
     'C10': [('ChessVerif.Props.C10', ['Chess.Props.C10_history', 'Chess.Props.C10_history_cap', 'Chess.Props.C10_iteration_index', 'Chess.Props.C10_pins',
@@ -33,7 +35,7 @@ THEOREMS = {
     'C14': [('ChessVerif.Props.C14', ['Chess.Props.C14_cache_transparent', 'Chess.Props.C14_cap_partial'])],
     'C15': [('ChessVerif.Props.C15', ['Chess.Props.C15_quiet', 'Chess.Props.C15_castling', 'Chess.Props.C15_capture_rules'])],
     'C17': [('ChessVerif.Props.C17', ['Chess.Props.C17_matcher_piece', 'Chess.Props.C17_matcher_pawn', 'Chess.Props.C17_castling'])],
-    'C18': [('ChessVerif.Props.C18', ['Chess.Props.C18_tables', 'Chess.Props.C18_anchors', 'Chess.Props.C18_pieces', 'Chess.Props.C18_key_noep'])],
+    'C18': [('ChessVerif.Props.C18', ['Chess.Props.C18_tables', 'Chess.Props.C18_anchors', 'Chess.Props.C18_pieces', 'Chess.Props.C18_key_noep', 'Chess.Props.C18_key'])],
     'C16': [('ChessVerif.Props.C16', ['Chess.Props.C16_encoding', 'Chess.Props.C16_encoding_move', 'Chess.Props.C16_castle_code', 'Chess.Props.C16_moveinfo',
                                      'Chess.Props.C16_uci_text', 'Chess.Props.C16_uci_plain', 'Chess.Props.C16_uci_castle'])],
     'C19': [('ChessVerif.Props.C19', ['Chess.Props.C19_load', 'Chess.Props.C19_load_count', 'Chess.Props.C19_best', 'Chess.Props.C19_random',
